@@ -268,6 +268,9 @@ func cliExec(rundir string, n int, c *cliCase) (impl, prop string) {
 	default:
 		if c.mustSucceed {
 			prop = fmt.Sprintf("FAIL C15 a valid request answered by the device ends with status %d: %s ;; FAIL C13 the answer of the device is not reported: %s", r.status, trunc(strings.ReplaceAll(r.stderr, "\n", " / "), 120), trunc(strings.ReplaceAll(r.stderr, "\n", " / "), 120))
+			if strings.HasPrefix(c.label, "quoted key") {
+				prop += " ;; FAIL C06 the tool does not use the key as configured (" + c.key + "): a device keyed with that string cannot talk to it"
+			}
 		} else if r.stdout != "" || r.stderr == "" {
 			prop = fmt.Sprintf("FAIL C15 failure (status %d) must print a diagnostic on standard error and nothing on standard output (stdout %d bytes, stderr %d bytes)", r.status, len(r.stdout), len(r.stderr))
 		}
@@ -549,6 +552,24 @@ func init() {
 			c.args = append(c.args, "-help")
 			c.stdinDir, c.anyOutcome = true, true
 			c.needsDev = false
+			add(c)
+		}
+		// keys, user names and passwords that begin and end with quote characters (nobody strips them), given by flag, by
+		// environment and in the configuration file; the long spellings of the options
+		for k, v := range []string{`"my key"`, `'k'`, `"`, `""`, `'single`, "`tick`"} {
+			c := base("quoted key " + v)
+			c.key, c.mustSucceed = v, true
+			ms := mkReq(c, 1, true)
+			answers(c, ms)
+			switch k % 3 {
+			case 0:
+				c.args = []string{"-host", "127.0.0.1", "-port", "{PORT}", "-user", "cliuser", "-password", "clipassword", "-key", v, c.reqText}
+			case 1:
+				c.args = []string{"-host", "127.0.0.1", "-port", "{PORT}", "-user", "cliuser", "-password", "clipassword", c.reqText}
+				c.env = []string{"E3DC_KEY=" + v}
+			default:
+				c.args = []string{"--host=127.0.0.1", "--port", "{PORT}", "--user=cliuser", "--password", "clipassword", "--key=" + v, c.reqText}
+			}
 			add(c)
 		}
 		// unusual but legal user names and passwords on the command line
@@ -870,7 +891,12 @@ func init() {
 						extra = []string{"-splitrequests"}
 					}
 				}
-				c.args = append([]string{"-host", "127.0.0.1", "-port", "{PORT}", "-user", "loguser", "-password", j.pw, "-key", "logkey", "-debug", strconv.Itoa(j.level)}, extra...)
+				pwArgs := [][]string{{"-password", j.pw}, {"--password", j.pw}, {"-password=" + j.pw}, {"--password=" + j.pw}}[i%4]
+				if strings.HasPrefix(j.pw, "-") || strings.HasPrefix(j.pw, "=") {
+					pwArgs = []string{"-password=" + j.pw}
+				}
+				c.args = append(append([]string{"-host", "127.0.0.1", "-port", "{PORT}", "-user", "loguser"}, pwArgs...), "-key", "logkey", "-debug", strconv.Itoa(j.level))
+				c.args = append(c.args, extra...)
 				c.args = append(c.args, reqText)
 				dir := filepath.Join(rundir, fmt.Sprintf("clilog-%d", i))
 				os.MkdirAll(dir, 0o755)
